@@ -70,14 +70,30 @@ def o_shallow(prog, res, f):
     rec = prog.record(T)
     owners = owning_fields(prog, T)
     res.extra["owning_fields"] = owners
-    # whole-object overwrites of *dst
+    # whole-object (or prefix) overwrites of *dst
     over = []
+    prefix_len = {}
+
+    def field_offset(path):
+        """byte offset of a (nested) member path of T"""
+        off = 0
+        r = rec
+        for part in path.split("."):
+            fl = [x for x in r["fields"] if x["n"] == part]
+            if not fl:
+                return None
+            off += fl[0]["off"] // 8
+            r = prog.record(fl[0].get("r")) if fl[0].get("r") and not fl[0].get("pd") else None
+            if r is None:
+                break
+        return off
     for b, i, s in f.all_stmts():
         for c in ir.calls_in(s):
             if c.get("fn") == "memcpy" and is_param_path(c["args"][0], dst["id"]) == "" \
                     and ir.strip(c["args"][0]).get("k") == "var" and ir.is_const(c["args"][2]) \
-                    and ir.strip(c["args"][2])["v"] >= rec["size"]:
+                    and ir.strip(c["args"][2])["v"] > 0:
                 over.append((b.id, i, s))
+                prefix_len[(b.id, i)] = ir.strip(c["args"][2])["v"]
         for lv, op, rhs, w in ir.writes_of(s):
             if lv.get("k") == "deref" and ir.strip(lv["e"]).get("k") == "var" and ir.strip(lv["e"])["id"] == dst["id"]:
                 over.append((b.id, i, s))
@@ -88,6 +104,12 @@ def o_shallow(prog, res, f):
         return
     for ob, oi, os_ in over:
         for p in owners:
+            n_ = prefix_len.get((ob, oi))
+            if n_ is not None and n_ < rec["size"]:
+                fo = field_offset(p)
+                if fo is not None and fo >= n_:
+                    res.oblige(R, "%s: dst->%s is beyond the %d bytes the prefix copy overwrites" % (f.name, p, n_), True, "", f.loc(os_))
+                    continue
             inst = "%s: dst->%s kept across the struct copy" % (f.name, p)
             prefixes = [p.rsplit(".", k)[0] for k in range(p.count(".") + 1)] + [p]
             prefixes = sorted(set(prefixes + [".".join(p.split(".")[:k]) for k in range(1, p.count(".") + 2)]))
@@ -160,6 +182,34 @@ def o_fieldcov_copy(prog, res, f):
             res.fail(R, inst, "O-FIELDCOV|%s|%s" % (f.name, m), f.loc(),
                      "%s can report success without deep-copying the string member '%s' from the same member of the source" % (f.name, m),
                      {"path_blocks": w})
+    # every other member: overwritten by a memcpy(dst, src, N) that reaches past it, or assigned member-wise
+    rec_ = prog.record(T)
+    strs = set(string_members(prog, T))
+    for fl in rec_["fields"]:
+        m = fl["n"]
+        if m in strs or m == "acquisition_dimensions":
+            continue
+        lo, hi = fl["off"] // 8, fl["off"] // 8 + fl["size"]
+
+        def covers_member(s, m=m, hi=hi):
+            for c in ir.calls_in(s):
+                if c.get("fn") == "memcpy" and is_param_path(c["args"][0], dst["id"]) == "" and is_param_path(c["args"][1], src["id"]) == "" \
+                        and ir.is_const(c["args"][2]) and ir.strip(c["args"][2])["v"] >= hi:
+                    return True
+            for lv, op, rhs, w in ir.writes_of(s):
+                if op == "=" and is_param_path(lv, dst["id"]) == m and is_param_path(rhs, src["id"]) == m:
+                    return True
+                if op == "=" and is_param_path(lv, dst["id"]) == "" and ir.strip(lv).get("k") == "deref" and is_param_path(rhs, src["id"]) == "":
+                    return True
+            return False
+        ok, w = paths.all_paths_pass(f, "entry", succ, covers_member)
+        inst = "%s: dst->%s receives src->%s on every success path" % (f.name, m, m)
+        if ok:
+            res.oblige(R, inst, True, "", f.loc())
+        else:
+            res.fail(R, inst, "O-FIELDCOV|%s|%s" % (f.name, m), f.loc(),
+                     "%s can report success without copying the member '%s' (bytes %d..%d of the record): a struct copy that stops short of it, or a member-wise copy that forgets it"
+                     % (f.name, m, lo, hi), {"path_blocks": w})
     # dimensions: element-wise copy in a loop guarded by the source having some
     calls = [(b, i, s, c) for b, i, s in f.all_stmts() for c in ir.calls_in(s) if c.get("fn") == "storage_dimension_copy"]
     inst = "%s: every dimension element is copied" % f.name
